@@ -318,3 +318,16 @@ pub proof fn lemma_copula_at_same(a: &ParseState<'_, &str>, b: &ParseState<'_, &
         assert(lenient_kw_at(a.env@, i, copula_seq(a.format)[k]));
     }
 }
+
+/// R30: opaque stand-ins for std adapters Verus has no model of (`Iterator::rposition`,
+/// `Vec::retain`; neither is used on the pinned tree).  NOTHING is known about their results but a
+/// bound, so whatever a property needs beyond that fails as an obligation - the function stays
+/// inside the verifier's reach instead of leaving it.
+#[verifier::external_body]
+pub fn vx_opaque_index(len: usize) -> (r: Option<usize>)
+    ensures r matches Some(i) ==> i < len
+{ unimplemented!() }
+#[verifier::external_body]
+pub fn vx_opaque_shrink<T>(v: &mut Vec<T>)
+    ensures final(v)@.len() <= old(v)@.len()
+{ unimplemented!() }
